@@ -531,7 +531,7 @@ mod proofs {
     // moves by exactly delta (possibly below zero).  A stream that can never emit DATA again (send half
     // closed AND nothing buffered) may be skipped; every other stream must be adjusted.  Capacity that
     // now exceeds the stream window goes back to the pool (conservation), so that assigned <= window+.
-    // @harness id=send_apply_remote_settings props=C02,C14,C16,C08 kind=bounded bound=streams=1 tier=thorough fn=Send::apply_remote_settings timeout=5400
+    // @harness id=send_apply_remote_settings props=C02,C14,C16,C08 kind=bounded bound=streams=1 tier=attempt fn=Send::apply_remote_settings timeout=5400
     #[kani::proof]
     #[kani::unwind(3)]
     fn send_apply_remote_settings() {
